@@ -5,25 +5,24 @@ Written after src/occa/internal/lang/builtins/attributes/dim.cpp:
   dim::applyCodeTransformations   index = a[o_k];  for i = k-1 … 0: index = a[o_i] + D[o_i] * index
   dim::getDimOrder                order[i] = evaluate(dimOrder argument i)  (identity without @dimOrder)
   dimOrder::isValid               every argument a constant in [0, argCount), no duplicates
-(the expression-level twin is in OccaModel/LoopExpr.lean: `dimExpr`).  Core Lean only.
+(the expression-level twin is in OccaModel/LoopExpr.lean: `dimIndexExpr`).  Core Lean only.
 -/
 namespace Occa.Dim
 
 /-- mixed-radix value of a list of (digit, radix) pairs, fastest digit first:
-    `x0 + d0 * (x1 + d1 * (… + d_{k-1} * x_k))`.  The radix of the last (slowest) digit is not used,
-    exactly as in the C++ (`index = a[o_k]` to start with). -/
-def mixed : List (Nat × Nat) → Nat
+    `x0 + d0 * (x1 + d1 * (… + d_{k-1} * x_k))`.  The radix of the last (slowest) digit multiplies 0. -/
+def mixed : List (Int × Int) → Int
   | [] => 0
-  | [(x, _)] => x
   | (x, d) :: r => x + d * mixed r
 
-/-- the documented linear index of `x(ix[0], …, ix[k])` for `@dim(D[0], …, D[k]) @dimOrder(ord…)` -/
-def linear (D ix ord : List Nat) : Nat :=
+/-- the documented linear index of `x(ix[0], …, ix[k])` for `@dim(D[0], …, D[k]) @dimOrder(ord…)`:
+    dimension `ord[0]` is the fastest, `ord[k]` the slowest -/
+def linear (D ix : List Int) (ord : List Nat) : Int :=
   mixed (ord.map fun o => (ix.getD o 0, D.getD o 0))
 
 /-- the loop of `dim::applyCodeTransformations`, statement by statement on numbers:
     `index = a[order[n-1]]`, then `for (i = n-2; i >= 0; --i) index = a[order[i]] + D[order[i]] * index` -/
-def codeIndex (D ix ord : List Nat) : Nat :=
+def codeIndex (D ix : List Int) (ord : List Nat) : Int :=
   match ord.reverse with
   | [] => 0
   | last :: restRev =>
@@ -31,6 +30,10 @@ def codeIndex (D ix ord : List Nat) : Nat :=
 
 /-- identity order used when there is no `@dimOrder` -/
 def idOrder (n : Nat) : List Nat := List.range n
+
+def prod : List Int → Int
+  | [] => 1
+  | a :: r => a * prod r
 
 /-- `dimOrder::isValid` on already-evaluated arguments: the `order[]` flag array -/
 def orderValidGo (n : Nat) : List Int → List Nat → Bool
@@ -43,7 +46,8 @@ def orderValidGo (n : Nat) : List Int → List Nat → Bool
 def orderValid (args : List Int) : Bool :=
   !args.isEmpty && orderValidGo args.length args []
 
-/-- all in-range index tuples have `ix[i] < D[i]` -/
-def InRange (D ix : List Nat) : Prop := ix.length = D.length ∧ ∀ i, i < D.length → ix.getD i 0 < D.getD i 0
+/-- in-range index tuples: `0 ≤ ix[i] < D[i]` for every dimension -/
+def InRange (D ix : List Int) : Prop :=
+  ix.length = D.length ∧ ∀ i, i < D.length → 0 ≤ ix.getD i 0 ∧ ix.getD i 0 < D.getD i 0
 
 end Occa.Dim
